@@ -67,6 +67,8 @@ static tis::Scenario make_far(Rng& g, int iterations) {
     return s;
 }
 
+static double g_limit = 1e300;
+static void on_phase(int tag, const std::vector<cell_ptr>* lp) { if (tag == 8 && tis::blown_up(*lp, g_limit)) throw tis::unstable_run(); }
 struct RunOut { uint64_t hash = 0, inter = 0; long iters = 0, cells = 0; std::string exc; };
 static RunOut run_tissue(const tis::Scenario& s0, int threads, uint64_t sched_seed, bool sched_on, uint64_t rng_base, const std::string& out) {
     tis::Scenario s = s0; s.P.output_folder_path_ = out; RunOut r; rng_reset(rng_base); sched_reset(sched_seed, sched_on);
@@ -77,6 +79,7 @@ static RunOut run_tissue(const tis::Scenario& s0, int threads, uint64_t sched_se
         while (!sv.finished()) { sv.run_iteration(); r.iters++; }
         r.hash = state_hash(sv.cells()); r.cells = (long)sv.cells().size();
     } catch (const std::exception& e) { r.exc = e.what(); r.hash = hash_str(std::string("exception:") + e.what()); }
+    catch (const tis::unstable_run&) { r.exc = "unstable"; r.hash = hash_str("unstable") ^ (uint64_t)r.iters; }
     r.inter = interleaving_hash(); std::error_code ec; std::filesystem::remove_all(out, ec); return r;
 }
 
@@ -84,7 +87,7 @@ static std::string identity_case(const Args& a, long i) {
     Rng g(a.seed, (uint64_t)i, 0x15); Case c(i);
     int iters = g.range((int)a.geti("min_iterations", 25), (int)a.geti("max_iterations", 50));
     tis::Scenario s = make_far(g, iters);
-    auto& S = verif::get(); S.rng_seed = rng_seed; S.sched_point = sched_point;
+    auto& S = verif::get(); S.rng_seed = rng_seed; S.sched_point = sched_point; S.phase = on_phase; g_limit = tis::extent_limit(s);
     std::string out = "thr_out_" + std::to_string(i) + "_" + std::to_string((long)getpid()); uint64_t base = hash_combine(a.seed, (uint64_t)i);
     RunOut ref = run_tissue(s, 1, 0, false, base, out);
     std::set<uint64_t> inter; long runs = 0; std::vector<long> tc;
